@@ -30,6 +30,7 @@ type c18Case struct {
 	entries []c18Entry
 	list    string
 	fail    bool
+	stale   int // 0: no README.md before the run, 1: a short old one, 2: an old one longer than any rendering
 }
 
 var c18Titles = []string{" Title", "", " Several words here", "  Double", " "}
@@ -99,6 +100,8 @@ func c18Driver(maxEntries int) func(c *explore.Chooser) *c18Case {
 		if finalNL {
 			cs.list += "\n"
 		}
+		// what is in the directory before the run (the tool is re-run in place after the list changed)
+		cs.stale = c.Choose(3)
 		return cs
 	}
 }
@@ -120,16 +123,24 @@ func c18Structural(header, got string, entries []c18Entry) string {
 		return "README does not start with the fixed header"
 	}
 	pos := len(header)
+	defer func() {}()
 	for i, e := range entries {
 		base := strings.TrimSuffix(e.name, ".fo")
 		gen := "gen_" + base + ".go"
-		for _, part := range []string{e.title, "```\n" + e.content, "```", gen} {
+		for _, part := range []string{e.title, "```\n" + e.content, "```", gen, gen} { // the link names gen twice: [gen](./gen)
 			j := strings.Index(got[pos:], part)
 			if j < 0 {
 				return fmt.Sprintf("section %d: %q not found in order", i, part)
 			}
 			pos += j + len(part)
 		}
+	}
+	// nothing but the end of the last link line and blank lines may follow the last section
+	if rest := strings.TrimLeft(got[pos:], ")\n "); len(entries) > 0 && rest != "" {
+		return fmt.Sprintf("text after the last section: %q", trunc(rest, 60))
+	}
+	if len(entries) == 0 && strings.TrimSpace(got[pos:]) != "" {
+		return fmt.Sprintf("text after the header of an empty list: %q", trunc(got[pos:], 60))
 	}
 	return ""
 }
@@ -245,9 +256,24 @@ func c18RunOne(c *core.Ctx, sc *impl.Scratch, bsm, header string, exact bool, cs
 		}
 		present = append(present, e)
 	}
+	staleText := ""
+	switch cs.stale {
+	case 1:
+		staleText = "old\n"
+	case 2:
+		staleText = strings.Repeat("### stale section of an entry that is no longer listed\n\n```\nold\n```\n\n", 60)
+	}
+	if cs.stale != 0 {
+		os.WriteFile(filepath.Join(dir, "README.md"), []byte(staleText), 0o644)
+		files["README.md (before the run)"] = trunc(staleText, 80)
+	}
 	r := impl.RunWithRetry(dir, 20*time.Second, 60*time.Second, bsm, filepath.Join(dir, "list.txt"))
 	gotB, rerr := os.ReadFile(filepath.Join(dir, "README.md"))
 	got := string(gotB)
+	if cs.fail && cs.stale != 0 && rerr == nil && got == staleText {
+		// a failed run must leave the old file alone: same as "not written"
+		rerr = os.ErrNotExist
+	}
 	c.Count(1, 0, 0, 1)
 	c.DistinctNT(fmt.Sprint(files), len(cs.entries) >= 1)
 	c.Hist("by_entries", fmt.Sprint(len(cs.entries)), 1)
